@@ -154,7 +154,11 @@ def _run(prog):
                 ev.update(i=i, T=T, s=s)
                 if not (1 <= i <= len(insts)):
                     continue
-                comp = TYPES[T](insts[i - 1][1], model)
+                # now and then the very object that is a class component somewhere is ALSO given to an instance (each holder keeps
+                # its own attachment); otherwise a new component built for the instance
+                comp = shared.get((T, s)) if s % 4 == 1 else None
+                if comp is None:
+                    comp = TYPES[T](insts[i - 1][1], model)
                 keep.append(comp)
                 serial[id(comp)] = s
                 insts[i - 1][1].add_component(comp)
